@@ -647,6 +647,11 @@ func FuncName(pkg *types.Package, name string, recv *types.Var, org bool) string
 			} else {
 				tName = abi.NamedName(named)
 			}
+			// Wrappers ($bound, $thunk) are emitted in the package that uses them:
+			// qualify a receiver type that belongs to another package.
+			if rpkg := named.Obj().Pkg(); rpkg != nil && pkg != nil && PathOf(rpkg) != PathOf(pkg) {
+				tName = PathOf(rpkg) + "." + tName
+			}
 			if ptr {
 				tName = "(*" + tName + ")"
 			}
